@@ -228,6 +228,8 @@ def run(chk):
             continue
         chk.count("method:" + c["method"])
         chk.count("weights:" + c["wkind"])
+        if r.get("input_unchanged") is False:
+            chk.fail("C17:input-mutated", "choosing the threshold modified the caller's live samples", {"case": c, "observed": r})
         for key, what in classify_and_check(c, r):
             chk.fail(key, what, {"case": c, "observed": r})
         if "error" not in r and not r.get("thr_is_int0"):
